@@ -14,9 +14,9 @@ import (
 	"crypto/rand"
 	"crypto/sha256"
 	"errors"
-	"io"
 	"flag"
 	"fmt"
+	"io"
 	"math/big"
 	mrand "math/rand"
 	"sort"
@@ -255,10 +255,10 @@ func issueV1(cn string, key crypto.Signer, issuerName []byte, signer crypto.Sign
 // ------------------------------------------------------------------ hierarchies
 
 var (
-	tOld  = time.Date(2010, 3, 4, 5, 6, 7, 0, time.UTC)  // long expired
-	tNew  = time.Date(2031, 3, 4, 5, 6, 7, 0, time.UTC)  // far from expiry
-	tNew2 = time.Date(2033, 1, 1, 0, 0, 0, 0, time.UTC)  // another shard
-	tHTTP = time.Date(2026, 1, 1, 0, 0, 0, 0, time.UTC)  // stands for time.Now() in HTTP cases
+	tOld  = time.Date(2010, 3, 4, 5, 6, 7, 0, time.UTC) // long expired
+	tNew  = time.Date(2031, 3, 4, 5, 6, 7, 0, time.UTC) // far from expiry
+	tNew2 = time.Date(2033, 1, 1, 0, 0, 0, 0, time.UTC) // another shard
+	tHTTP = time.Date(2026, 1, 1, 0, 0, 0, 0, time.UTC) // stands for time.Now() in HTTP cases
 	oidA  = asn1.ObjectIdentifier{1, 2, 3, 4, 5, 6, 7}
 	oidB  = asn1.ObjectIdentifier{1, 2, 3, 4, 5, 6, 8}
 	oidC  = asn1.ObjectIdentifier{2, 5, 29, 99}
@@ -478,15 +478,15 @@ func genLine(n int, name string) *hier {
 // ------------------------------------------------------------------ options
 
 type opts struct {
-	Roots       []int
-	Now         time.Time
-	RejExpired  bool
-	RejUnexp    bool
-	Start       *time.Time
-	Limit       *time.Time
-	OnlyCA      bool
-	EKUs        []int
-	RejExt      []asn1.ObjectIdentifier
+	Roots      []int
+	Now        time.Time
+	RejExpired bool
+	RejUnexp   bool
+	Start      *time.Time
+	Limit      *time.Time
+	OnlyCA     bool
+	EKUs       []int
+	RejExt     []asn1.ObjectIdentifier
 }
 
 func optZ(t *time.Time) string {
@@ -832,6 +832,7 @@ func main() {
 		header += H.u.coqDef()
 	}
 	w := lib.NewWriter(header, 300)
+	defer w.Guard()
 
 	emitValidate := func(H *hier, s sub, o opts, extraTags ...string) {
 		res := runValidate(H, s.chain, o)
